@@ -45,7 +45,9 @@ def parts_of(ret):
             ps.extend(p.parts)
         else:
             ps.append(p)
-    ps = [p for p in ps if p != ""]
+    ps = [p for p in ps if not (isinstance(p, str) and p == "")]
+    if len(ps) >= 3 and pyz3.is_z3(ps[2]) and z3.is_int(ps[2]):
+        ps[2] = Digits(ps[2], 1)                   # an int printed as it is
     if len(ps) < 4 or not isinstance(ps[0], Fixed) or ps[1] != "(" or not isinstance(ps[2], Digits) or ps[3] != ")":
         raise EncodingError("unexpected output structure %r" % ([type(p).__name__ for p in ps],))
     rest = ps[4:]
@@ -181,7 +183,11 @@ def check_class(args):
                 Kc = None
             else:
                 fx, dg, K = parts_of(out[1])
-                spec, Kc = spec_terms(ctx, fx, dg, K, x, err, a)
+                try:
+                    spec, Kc = spec_terms(ctx, fx, dg, K, x, err, a)
+                except pyz3.Infeasible:
+                    res["vacuous"] += 1
+                    continue
                 neg = z3.Not(spec)
                 desc = "misreads"
             # vacuity guard: the path itself must be satisfiable
@@ -252,7 +258,10 @@ def validate_translator():
                 outs.append("EXC:" + out[1])
                 continue
             fx, dg, K = parts_of(out[1])
-            Kc = 0 if K is None else ctx.pick(K)
+            try:
+                Kc = 0 if K is None else ctx.pick(K)
+            except pyz3.Infeasible:
+                continue                  # a path that cannot be taken for these concrete inputs
             if check(ctx.sol) != "sat":
                 continue
             outs.append(render(ctx.sol.model(), fx, dg, Kc, K))
@@ -324,7 +333,10 @@ def sample_queries(classes, k=12):
             if o[0] != "ret":
                 continue
             fx, dg, K = parts_of(o[1])
-            spec, Kc = spec_terms(ctx, fx, dg, K, x, err, a)
+            try:
+                spec, Kc = spec_terms(ctx, fx, dg, K, x, err, a)
+            except pyz3.Infeasible:
+                continue
             s = z3.Solver()
             s.add(ctx.pc)
             s.add(z3.Not(spec))
